@@ -208,7 +208,7 @@ def run(ctx):
         job = 0
         n_ops = ctx.pick(150, 400)
         for name, path, data in configs:
-            for s in range(ctx.pick(2, 8)):
+            for s in range(ctx.pick(2, 40)):
                 job += 1
                 if not ctx.mine(job):
                     continue
@@ -235,7 +235,7 @@ def run(ctx):
                 ctx.addset('configs', name)
                 if job == 1:
                     ctx.sample('op_sequence', {'config': name, 'seed': seed, 'ops': [list(o) if isinstance(o, tuple) else o for o in ops[:20]]})
-        for k in range(ctx.pick(24, 300)):
+        for k in range(ctx.pick(24, 2000)):
             if not ctx.mine(k):
                 continue
             if ctx.out_of_time(0.9):
